@@ -20,8 +20,10 @@ THEOREMS = [
     "C22_no_false_cycle",
     "C22_cycle_reported",
     "C22_outcome_sound",
+    "C22_resolution_terminates",
     "C22_concurrent",
     "C22_sequential",
+    "C22_resolution_terminates_sequential",
     "C22_refuted_unlocked_false_cycle",
     "C22_refuted_unlocked_scope_leak",
     "C22_refuted_unlocked_stale_scope",
@@ -37,7 +39,9 @@ EXPLANATION = (
     "injection of it is that object; a non-cached resource is shared inside one invocation and differs between "
     "invocations; injected objects come from the right factory; a cycle error names a genuine dependency path back "
     "to one of its members and the requested resource is not well-founded; an invocation that completes has only "
-    "well-founded requests; a raising factory is the only other failure. The same statements for serial schedules of "
+    "well-founded requests; a raising factory is the only other failure; every await-free section of a resolution ends "
+    "after finitely many micro-steps on every graph (lexicographic measure: scoped cache, stack, dependencies left). "
+    "The same statements for serial schedules of "
     "the unlocked code (C22_sequential), and three refutations of the unlocked code by concrete interleavings (false "
     "cycle error, non-cached object shared by two invocations, stale scoped value after a bare get). C22_concurrent "
     "is stated for the configuration regenerated from the sources, so it only checks on a tree with exclusive scopes. "
@@ -58,8 +62,9 @@ ASSUMPTIONS = [
     "one descriptor per resource name; ResourceManager.set() by hand and _ResourceConfig (no dependencies, always "
     "cached) are outside the model",
     "one event loop at a time per manager (the repaired code re-creates its lock when the running loop changes)",
-    "progress (every atomic section ends; a released lock is handed on) is exercised by the monitors (no stuck task), "
-    "not stated as a theorem",
+    "termination of every await-free section is a theorem (C22_resolution_terminates); absence of deadlock between "
+    "invocations (a released lock is handed on, every suspended invocation can be resumed) is only exercised by the "
+    "monitors (rule C22/stuck), not stated as a theorem",
 ]
 TRUSTED_EXTRA = [
     "harness/gen/resource.py (statement classification of resource.py / step_function.py)",
@@ -171,17 +176,24 @@ def gen_reqs(rng: random.Random, g: list[dict]) -> list[int]:
 class Chooser:
     """Adaptive schedule: at every quiescent point spawn the next task or open a gate."""
 
-    def __init__(self, rng: random.Random, g: list[dict], ntasks: int, style: str):
+    def __init__(self, rng: random.Random, g: list[dict], ntasks: int, style: str, excl: bool = True):
         self.rng, self.g, self.ntasks, self.style = rng, g, ntasks, style
+        # Unlocked tree only: a bare get that joined another invocation's scope re-checks the shared depth at
+        # each nested get and opens scopes of its own once that scope has closed; the unlocked model
+        # configuration does not follow this (see WfModel/Resource.lean), so bare gets there ask for leaves.
+        self.bare_pool = list(range(len(g))) if excl else [i for i, r in enumerate(g) if not r["d"]]
         self.spawned = 0
         self.stop_early = rng.random() < 0.08
         self.bad = rng.random() < 0.15
+        self.reloop = rng.random() < 0.2
 
     def __call__(self, gates: list[int], ntasks_now: int) -> list | None:
         rng = self.rng
         can_spawn = self.spawned < self.ntasks
         if not can_spawn and not gates:
             return None
+        if self.reloop and not gates and self.spawned >= 1 and rng.random() < 0.4:
+            return ["loop"]  # every invocation has finished: go on with the same manager on a fresh event loop
         if self.stop_early and self.spawned >= 1 and rng.random() < 0.15:
             return None
         if self.bad and rng.random() < 0.1:
@@ -194,8 +206,8 @@ class Chooser:
             spawn = can_spawn and (not gates or rng.random() < 0.5)
         if spawn:
             self.spawned += 1
-            if rng.random() < 0.12:
-                return ["spawn", "b", [rng.randrange(len(self.g))]]
+            if rng.random() < 0.12 and self.bare_pool:
+                return ["spawn", "b", [rng.choice(self.bare_pool)]]
             return ["spawn", "p", gen_reqs(rng, self.g)]
         return ["open", rng.choice(gates)]
 
@@ -338,7 +350,7 @@ def run_cases(cases: list[dict], cfg: dict, out: Outcome, label: str) -> None:
         lines, info = RL.run_direct(g, ops)
         info["overlapped"] = overlapped(lines)
         real.append((case, lines, info))
-        mlines += [cfg_line(cfg), RL.graph_line(g)] + [RL.op_line(o) for o in ops]
+        mlines += [cfg_line(cfg), RL.graph_line(g)] + [RL.op_line(o) for o in ops if o[0] != "loop"]
     mo_all: list[str] | None
     try:
         mo_all = Driver("resource").run(mlines) if mlines else []
@@ -348,9 +360,11 @@ def run_cases(cases: list[dict], cfg: dict, out: Outcome, label: str) -> None:
     pos = 0
     for case, lines, info in real:
         g, ops = case["g"], case["ops"]
-        n = 2 + len(ops)
+        n = 2 + sum(1 for o in ops if o[0] != "loop")
         out.evaluations += len(ops)
         out.count(f"{label}:cases")
+        if info.get("loops", 1) > 1:
+            out.count(f"{label}:manager-reused-on-a-new-event-loop")
         out.count(f"{label}:ops", len(ops))
         out.count(f"{label}:graph:{case.get('shape', '?')}")
         if info["overlapped"]:
@@ -379,11 +393,11 @@ def run_case(case: dict, cfg: dict, out: Outcome, label: str) -> None:
     run_cases([case], cfg, out, label)
 
 
-def gen_case(rng: random.Random, style: str | None = None, max_tasks: int = 4) -> dict:
+def gen_case(rng: random.Random, style: str | None = None, max_tasks: int = 4, excl: bool = True) -> dict:
     g, kind = gen_graph(rng)
     style = style or rng.choices(["mixed", "burst", "serial"], [6, 3, 2])[0]
     ntasks = rng.randint(1, max_tasks)
-    ch = Chooser(rng, g, ntasks, style)
+    ch = Chooser(rng, g, ntasks, style, excl)
     ops = RL.explore_direct(g, ch)
     return {"g": g, "ops": ops, "shape": kind, "style": style}
 
@@ -525,11 +539,11 @@ def run(env: Env) -> Outcome:
     run_cases([c for c in corpus if "workers" not in c], cfg, out, "corpus")
     run_wf_cases([c for c in corpus if "workers" in c], cfg, out)
     rng = random.Random(env.rng.randrange(1 << 30))
-    n1, n2 = env.budget(1500, 30000), env.budget(200, 4000)
+    n1, n2 = env.budget(1500, 45000), env.budget(200, 6000)
     for lo in range(0, n1, 500):
-        run_cases([gen_case(rng) for _ in range(min(500, n1 - lo))], cfg, out, "direct")
+        run_cases([gen_case(rng, excl=cfg["excl"]) for _ in range(min(500, n1 - lo))], cfg, out, "direct")
     for lo in range(0, n2, 500):
-        run_cases([gen_case(rng, max_tasks=6) for _ in range(min(500, n2 - lo))], cfg, out, "direct6")
+        run_cases([gen_case(rng, max_tasks=6, excl=cfg["excl"]) for _ in range(min(500, n2 - lo))], cfg, out, "direct6")
     # malformed stream for the driver protocol
     bad = ["spawn|x|1", "spawn|b|1,2", "open|z", "graph|1:2", "nonsense", "spawn|p|a"]
     try:
@@ -541,7 +555,7 @@ def run(env: Env) -> Outcome:
     except Exception as ex:
         out.divergences.append(Divergence("resource", 0, "<driver>", repr(ex), ""))
     wrng = random.Random(env.rng.randrange(1 << 30))
-    nw = env.budget(80, 1600)
+    nw = env.budget(80, 2400)
     for lo in range(0, nw, 200):
         run_wf_cases([gen_wf_case(wrng) for _ in range(min(200, nw - lo))], cfg, out)
     return out
